@@ -83,11 +83,11 @@ CLAIMED = {
     note="Trusted: scipy butter/sosfiltfilt/detrend (filter is an arbitrary function in the theorems).",
     technique="Lean 4 theorems (list/omega) + differential correspondence + op-trace", design="5/C10"),
  "C12": dict(
-    text="Theorems: the reader's run-length grouping inverts the writer's azimuth labelling (non-empty runs, adjacent labels distinct; both necessary), read(write s) = s for every reachable "
+    text="Theorems: the reader's grouping (label change or restart of the curve numbering) inverts the writer's azimuth labelling for every azimuth list with non-empty runs (necessary; the old label-only grouping also needed distinct neighbours -- defect C12-d), read(write s) = s for every reachable "
          "traditional object (uses C08's peaks-track-range invariant) and for azimuthal objects, derived columns are those of the object written. Tied to the code by histories -> write -> "
          "independent parse -> read back (bit-for-bit curves, masks, range, peaks, every statistic), by the model replaying the history and the round trip, and by the label/regex bridge.",
-    note="Trusted: %.18e/json/loadtxt are identity on doubles (checked bit for bit), float repr of azimuth labels. The azimuthal round-trip theorem carries the hypothesis that adjacent azimuth labels are "
-         "distinct (proved necessary); the code violates the property exactly there (two adjacent equal azimuths are merged by the reader): known finding C12-d with a witness that runs first.",
+    note="Trusted: %.18e/json/loadtxt are identity on doubles (checked bit for bit), float repr of azimuth labels. Defect C12-d (adjacent equal azimuths merged by the reader) was found by this check's generator and repaired; "
+         "the azimuthal round-trip theorem now holds for every azimuth list with at least one curve per azimuth.",
     technique="Lean 4 theorems (round trip via invariant) + differential correspondence + bridge", design="5/C12"),
  "C13": dict(
     text="Theorems: returned list = selected windows (sublist, same order); mask entry i is the decision for window i alone; component passes iff all ratios in [lo, hi]; widening limits is "
